@@ -20,8 +20,9 @@ import (
 )
 
 type stEff struct {
-	C string
-	V int // scale 100
+	C  string
+	V  int // scale 100
+	F4 int // if non-zero: the value at scale 10^4 (fractional shares); V is then its rounding to scale 100
 }
 
 type stRow struct {
@@ -249,22 +250,26 @@ func observeImport(bin, root string, id int, jb impJob) map[string]any {
 	for _, x := range rows {
 		extra := []any{}
 		for _, e := range x.Extra {
-			extra = append(extra, map[string]any{"c": e.C, "v": e.V})
+			v := e.V * 100 // scale 10^4
+			if e.F4 != 0 {
+				v = e.F4 // a quantity with four decimals (fractional shares)
+			}
+			extra = append(extra, map[string]any{"c": e.C, "v": v})
 		}
-		rws = append(rws, map[string]any{"z": x.Z, "amt": x.Amt, "fee": x.Fee, "cur": x.Cur, "extra": extra})
+		rws = append(rws, map[string]any{"z": x.Z, "amt": x.Amt * 100, "fee": x.Fee * 100, "cur": x.Cur, "extra": extra})
 		if im.Bals { // the statement carries a balance per row; the last one per (date, currency) becomes an assertion
-			lastBal[fmt.Sprintf("%d/%s", x.Z, x.Cur)] = map[string]any{"z": x.Z, "cur": x.Cur, "bal": x.Bal}
+			lastBal[fmt.Sprintf("%d/%s", x.Z, x.Cur)] = map[string]any{"z": x.Z, "cur": x.Cur, "bal": x.Bal * 100}
 		}
 	}
 	if im.Finals { // closing balances per commodity, asserted at the end of the statement period
 		for _, f := range jb.finals {
-			if f.V != 0 {
-				lastBal[fmt.Sprintf("%d/%s", jb.endZ, f.C)] = map[string]any{"z": jb.endZ, "cur": f.C, "bal": f.V}
+			if f.F4 != 0 {
+				lastBal[fmt.Sprintf("%d/%s", jb.endZ, f.C)] = map[string]any{"z": jb.endZ, "cur": f.C, "bal": f.F4}
 			}
 		}
 	}
 	for _, p := range jb.prices { // the importer skips zero values and days before --from, and rounds to cents
-		if p.Raw != 0 && p.Z >= jb.fromZ {
+		if (p.Raw+5000)/10000 != 0 && p.Z >= jb.fromZ { // a value that is zero at the cent is no price
 			eprices = append(eprices, map[string]any{"z": p.Z, "p": (p.Raw + 5000) / 10000, "c": "Viac", "t": "CHF"})
 		}
 	}
@@ -306,7 +311,10 @@ func observeImport(bin, root string, id int, jb impJob) map[string]any {
 					if err != nil {
 						continue
 					}
-					v := int(q.Shift(2).IntPart())
+					v := int(q.Shift(4).IntPart()) // scale 10^4
+					if !q.Shift(4).Equal(q.Shift(4).Truncate(0)) {
+						v = 987654321 // more than four decimals: nothing the statements carry
+					}
 					if b.Debit.Extract() == im.Account {
 						eff[b.Commodity.Extract()] += v
 					}
@@ -330,7 +338,7 @@ func observeImport(bin, root string, id int, jb impJob) map[string]any {
 				z, _ := parseYMD(t.Date.Extract())
 				for _, b := range t.Balances {
 					q, _ := decimal.NewFromString(b.Quantity.Extract())
-					asserts = append(asserts, map[string]any{"z": z, "cur": b.Commodity.Extract(), "bal": int(q.Shift(2).IntPart())})
+					asserts = append(asserts, map[string]any{"z": z, "cur": b.Commodity.Extract(), "bal": int(q.Shift(4).IntPart())})
 				}
 			case directives.Price:
 				z, _ := parseYMD(t.Date.Extract())
@@ -415,6 +423,8 @@ func C13(c *core.Ctx) {
 						raw = 0
 					case 1:
 						raw = rng.Intn(2000000000)
+					case 3:
+						raw = 1 + rng.Intn(9999) // below one cent
 					case 2:
 						raw = rng.Intn(200000)*10000 + []int{4999, 5000, 5001, 9999}[rng.Intn(4)]
 					}
@@ -433,6 +443,7 @@ func C13(c *core.Ctx) {
 				curs = []string{"CHF", "EUR", "USD"}[:1+rng.Intn(3)]
 			}
 			bal := map[string]int{}
+			bal4 := map[string]int{} // scale 10^4 (fractional shares)
 			start := map[string]int{}
 			touch := func(c string) {
 				if _, ok := bal[c]; !ok {
@@ -442,6 +453,7 @@ func C13(c *core.Ctx) {
 						bal[c] = 100 * rng.Intn(20)
 					}
 					start[c] = bal[c]
+					bal4[c] = bal[c] * 100
 				}
 			}
 			var rows []stRow
@@ -483,25 +495,29 @@ func C13(c *core.Ctx) {
 							r.Amt = sh * (1 + rng.Intn(500))
 						}
 						if rng.Intn(2) == 0 {
-							r.Amt, r.Extra = -abs(r.Amt), []stEff{{stockSyms[rng.Intn(len(stockSyms))], 100 * sh}}
+							r.Amt, r.Extra = -abs(r.Amt), []stEff{{C: stockSyms[rng.Intn(len(stockSyms))], V: 100 * sh}}
 						} else {
-							r.Amt, r.Extra = abs(r.Amt), []stEff{{stockSyms[rng.Intn(len(stockSyms))], -100 * sh}}
+							r.Amt, r.Extra = abs(r.Amt), []stEff{{C: stockSyms[rng.Intn(len(stockSyms))], V: -100 * sh}}
 						}
 						if im.Finals {
 							r.Fee = rng.Intn(500)
+							if rng.Intn(3) == 0 { // fractional shares (four decimals)
+								f4 := r.Extra[0].V*100 + (1+rng.Intn(9998))*map[bool]int{true: 1, false: -1}[r.Extra[0].V > 0]
+								r.Extra[0].F4 = f4
+							}
 						}
 					case "forex": // credit in cur, debit in another currency (plus a commission in the base currency)
 						for other == cur {
 							other = []string{"CHF", "EUR", "USD"}[rng.Intn(3)]
 						}
 						r.Amt = abs(r.Amt)
-						r.Extra = []stEff{{other, -(1 + rng.Intn(300000))}}
+						r.Extra = []stEff{{C: other, V: -(1 + rng.Intn(300000))}}
 						if im.Finals {
 							if rng.Intn(2) == 0 { // sold cur, bought the other
 								r.Amt, r.Extra[0].V = -r.Amt, -r.Extra[0].V
 							}
 							if rng.Intn(3) > 0 {
-								r.Extra = append(r.Extra, stEff{"CHF", -(1 + rng.Intn(400))})
+								r.Extra = append(r.Extra, stEff{C: "CHF", V: -(1 + rng.Intn(400))})
 							}
 						}
 					case "convert":
@@ -509,14 +525,20 @@ func C13(c *core.Ctx) {
 							other = []string{"CHF", "EUR", "USD"}[rng.Intn(3)]
 						}
 						r.Amt = -abs(r.Amt)
-						r.Extra = []stEff{{other, 1 + rng.Intn(300000)}}
+						r.Extra = []stEff{{C: other, V: 1 + rng.Intn(300000)}}
 					}
 				}
 				touch(cur)
 				bal[cur] += r.Amt - r.Fee
+				bal4[cur] += (r.Amt - r.Fee) * 100
 				for _, e := range r.Extra {
 					touch(e.C)
 					bal[e.C] += e.V
+					if e.F4 != 0 {
+						bal4[e.C] += e.F4
+					} else {
+						bal4[e.C] += e.V * 100
+					}
 				}
 				r.Bal = bal[cur]
 				rows = append(rows, r)
@@ -538,7 +560,7 @@ func C13(c *core.Ctx) {
 			}
 			sort.Strings(cs)
 			for _, c := range cs {
-				jb.finals = append(jb.finals, stEff{c, bal[c]})
+				jb.finals = append(jb.finals, stEff{C: c, V: bal[c], F4: bal4[c]})
 			}
 			jobs = append(jobs, jb)
 		}
